@@ -27,6 +27,18 @@ Every case runs in a process group of its own under a deadline (impl.isolated): 
 (an event loop that never finishes, a pipe nobody drains) is the observation `hang` and the violation
 "<kind>:step-never-returned", never a hang of the check. For the concurrent steps the moment the step returns
 is observed too: every command it started must have finished by then ("wait for all of them").
+
+Histories (kind `hist`): a list of operations in ONE FRESH interpreter (impl.run_hist starts a new python, nothing is
+inherited from the pool) - import a module of the command steps / set config.default_cmd_encoding or
+config.default_encoding (assignment, or config.init() finding the key in pypyr-config.yaml, pyproject.toml or
+$PYPYR_CONFIG_GLOBAL) / run a saving cmd / shell step whose commands write non-ASCII text in some encoding. The
+encoding in force for a command is its own `encoding`, else config.default_cmd_encoding AS IT IS WHEN THE STEP RUNS,
+else the interpreter's default (model: Cmd.runHist / histStep, driver op `cmd.enchist`). The generators only emit
+output that IS text under the encoding in force, so "a command that exited 0 never fails the step", "stops at the
+first non-zero exit with that code" and "cmdOut holds the text written" are judged without touching the open finding
+about undecodable output (signature failure = encoding-in-force-not-used, never undecodable-output).
+The same histories run for cmds / shells (VERIF_C17_ASYNC_HIST=0 turns them off); pypyr.aio.subproc read the default at
+import until repo commit 88e1057 (known_findings.json, fixed).
 """
 from __future__ import annotations
 
@@ -62,6 +74,11 @@ ASSUMPTIONS = [
     'lets "one of them" exit; the generators put an instruction into two concurrent lanes only where the same '
     'instructions follow it in both, and - concurrent steps - an instruction of a command that redirects to a file '
     'occurs in that command only (the driver rejects the rest as outside the model)',
+    'histories: the process is characterised by the order of [module imports | assignments of the two encoding '
+    'settings (directly or by config.init() reading one config file) | step runs]; a configured encoding is a codec '
+    'name or None (an empty string is outside the model); what each command writes is text under the encoding in '
+    'force for it (the codec library decides, also what that text is); bytes mode and redirects in histories, and '
+    'the concurrent steps (opt-in only), are outside the judged domain',
     'under a shell (shell/shells) a missing or non-executable program is an ordinary exit 127/126 of the shell, '
     'not a spawn error: there the only unstartable commands generated are those of a map with a missing cwd',
 ]
@@ -783,10 +800,334 @@ def random_cases(env, count):
 # model side
 # --------------------------------------------------------------------------
 
+# --------------------------------------------------------------------------
+# histories in one fresh process: import / set configuration / run step, in every order
+# --------------------------------------------------------------------------
+
+HIST_ENCS = ['utf-8', 'utf-16', 'latin-1', 'cp1252', 'utf-16-le', 'utf-32']
+HIST_TEXTS = ['héllo wörld\n', 'über', 'naïve café  \n\n', '€ 5 – ok\n', 'Ωμέγα ✓\n',
+              '日本語\n', 'plain ascii\n', '']
+HIST_MODS = ['pypyr.subproc', 'pypyr.steps.cmd', 'pypyr.steps.shell', 'pypyr.steps.dsl.cmd', 'pypyr.steps.cmds',
+             'pypyr.pipelinerunner']
+HIST_HOWS = ['assign', 'init-yaml', 'init-toml', 'init-global']
+HIST_DEFAULT = 'utf-8'       # what the fresh interpreter reads text with when no encoding is given (it reports it)
+
+
+def h_imp(mod):
+    return {'op': 'imp', 'mod': mod}
+
+
+def h_set(v, how, file=False):
+    if v is None and how == 'init-toml':
+        how = 'init-yaml'          # toml has no null
+    return {'op': 'setFile' if file else 'setCmd', 'v': v, 'how': how}
+
+
+def hist_fold(case):
+    """The harness's own reading of a history: for every run, the configured default in force when it starts."""
+    cur, out = case.get('env_cmd'), []
+    for op in case['ops']:
+        if op['op'] == 'setCmd':
+            cur = op['v']
+        elif op['op'] == 'run':
+            out.append(cur)
+    return out
+
+
+def hist_text_ok(text, penc, enc):
+    """Can a command write `text` in `penc`, and is that text under `enc` (the codec library decides)?"""
+    try:
+        text.encode(penc).decode(enc or HIST_DEFAULT)
+        return True
+    except (UnicodeError, LookupError):
+        return False
+
+
+def hist_fill(rng, case, codes_of=None):
+    """Give every run its commands: output the command writes in the encoding in force for it (sometimes in another
+    one under which it still is text), non-ASCII mostly. Runs are {'op':'run','step','form','save','owns':[...]}."""
+    forces = hist_fold(case)
+    r = 0
+    for op in case['ops']:
+        if op['op'] != 'run':
+            continue
+        dflt = forces[r]
+        r += 1
+        owns = op.pop('owns')
+        codes = op.pop('codes')
+        cmds = []
+        for own, code in zip(owns, codes):
+            enc = own if own else dflt
+            pencs = [enc or HIST_DEFAULT] * 4 + [e for e in HIST_ENCS if e != enc]
+            for _ in range(40):
+                penc = rng.choice(pencs)
+                out, err = rng.choice(HIST_TEXTS[:6] + HIST_TEXTS), rng.choice(HIST_TEXTS)
+                if hist_text_ok(out, penc, enc) and hist_text_ok(err, penc, enc):
+                    break
+            else:
+                penc, out, err = enc or HIST_DEFAULT, 'plain ascii\n', ''
+            cmds.append({'code': code, 'out': out, 'err': err, 'penc': penc, 'own': own})
+        op['cmds'] = cmds
+    case['n'] = sum(len(op['cmds']) for op in case['ops'] if op['op'] == 'run')
+    return case
+
+
+def h_run(step, form, owns, codes, save=True):
+    if form == 'single':
+        owns, codes = owns[:1], codes[:1]
+    if form == 'runlist':
+        owns = [owns[0]] * len(owns)          # one map: one `encoding` for all its instructions
+    return {'op': 'run', 'step': step, 'form': form, 'save': save, 'owns': list(owns), 'codes': list(codes)}
+
+
+def hist_cases(env):
+    """Directed: every order of [import a module of the command steps | set default_cmd_encoding (assignment /
+    config.init() with pypyr-config.yaml, pyproject.toml, $PYPYR_CONFIG_GLOBAL) | set default_encoding | run a
+    saving cmd / shell step] incl. re-configuration between two runs and a start-up value from the environment."""
+    rng = env.rng
+    cases = []
+    k = 0
+    CODES3 = [(0,), (0, 3, 0), (0, 0), (3, 0), (0, 0, 1)]
+    for v in HIST_ENCS:
+        for how in HIST_HOWS:
+            for rot in range(2):
+                others = [e for e in HIST_ENCS if e != v]
+                for own in (None, others[k % len(others)], ''):
+                    k += 1
+                    mod = HIST_MODS[(k + rot) % len(HIST_MODS)]
+                    step = 'cmd' if k % 2 else 'shell'
+                    form = ('runlist', 'expanded', 'single')[k % 3]
+                    codes = CODES3[k % len(CODES3)]
+                    owns = [own] + [None if (k + j) % 2 else own for j in range(len(codes) - 1)]
+                    R = lambda: h_run(step, form, owns, codes)
+                    v2 = others[(k // 3) % len(others)]
+                    how2 = HIST_HOWS[(k // 2) % len(HIST_HOWS)]
+                    f = others[(k // 5) % len(others)]
+                    seqs = {
+                        'import,set,run': [h_imp(mod), h_set(v, how), R()],
+                        'set,import,run': [h_set(v, how), h_imp(mod), R()],
+                        'set,run': [h_set(v, how), R()],
+                        'import,run,set,run': [h_imp(mod), R(), h_set(v, how), R()],
+                        'set,import,set,run': [h_set(v2, how2), h_imp(mod), h_set(v, how), R()],
+                        'set,run,set,run': [h_set(v2, how2), R(), h_set(v, how), R()],
+                        'import,set,run,unset,run': [h_imp(mod), h_set(v, how), R(), h_set(None, how2), R()],
+                        'env,import,run,set,run': [h_imp(mod), R(), h_set(v, how), R()],
+                        'import,setfile,set,run': [h_imp(mod), h_set(f, how2, file=True), h_set(v, how), R()],
+                        'set,import,setfile,run': [h_set(v, how), h_imp(mod), h_set(f, how2, file=True), R()],
+                        'setfile,import,run': [h_set(f, how, file=True), h_imp(mod), R()],
+                        'run,import,set,run': [R(), h_imp(mod), h_set(v, how), R()],
+                    }
+                    for name, ops in seqs.items():
+                        c = {'kind': 'hist', 'step': step, 'shape': 'hist/' + name, 'order': name, 'how': how,
+                             'mod': mod, 'enc': v, 'own': 'none' if own is None else ('empty' if own == '' else 'own'),
+                             'ops': copy.deepcopy(ops)}
+                        if name.startswith('env,'):
+                            c['env_cmd'] = v2
+                        cases.append(hist_fill(rng, c))
+    return cases
+
+
+HIST_ASYNC = os.environ.get('VERIF_C17_ASYNC_HIST', '1') == '1'
+
+
+def async_hist_cases(env):
+    """(VERIF_C17_ASYNC_HIST=0 turns it off): the same histories with a saving cmds / shells step whose commands all exit 0
+    (one run list = concurrent lanes; results in declaration order whatever the completion order)."""
+    rng = env.rng
+    cases = []
+    k = 0
+    for v in HIST_ENCS:
+        for how in HIST_HOWS:
+            k += 1
+            step = 'cmds' if k % 2 else 'shells'
+            mod = ('pypyr.steps.cmds', 'pypyr.steps.shells', 'pypyr.aio.subproc', 'pypyr.steps.dsl.cmdasync')[k % 4]
+            R = lambda: h_run(step, 'runlist', [None] * (1 + k % 3), [0] * (1 + k % 3))
+            for name, ops in {'import,set,run': [h_imp(mod), h_set(v, how), R()],
+                              'set,import,run': [h_set(v, how), h_imp(mod), R()],
+                              'set,run': [h_set(v, how), R()],
+                              'import,run,set,run': [h_imp(mod), R(), h_set(v, how), R()]}.items():
+                c = {'kind': 'hist', 'step': step, 'shape': 'hist-async/' + name, 'order': 'async:' + name, 'how': how,
+                     'mod': mod, 'enc': v, 'own': 'none', 'ops': copy.deepcopy(ops)}
+                cases.append(hist_fill(rng, c))
+    return cases
+
+
+def random_hist_cases(env, count):
+    rng = env.rng
+    cases = []
+    for _ in range(count):
+        ops = []
+        for _ in range(rng.randint(2, 7)):
+            x = rng.random()
+            if x < 0.25:
+                ops.append(h_imp(rng.choice(HIST_MODS)))
+            elif x < 0.55:
+                ops.append(h_set(rng.choice(HIST_ENCS + [None]), rng.choice(HIST_HOWS)))
+            elif x < 0.65:
+                ops.append(h_set(rng.choice(HIST_ENCS + [None]), rng.choice(HIST_HOWS), file=True))
+            else:
+                n = rng.randint(1, 3)
+                codes = [rng.choice((0, 0, 0, 1, 3)) for _ in range(n)]
+                owns = [rng.choice([None, None, None, '', rng.choice(HIST_ENCS)]) for _ in range(n)]
+                ops.append(h_run(rng.choice(('cmd', 'shell')), rng.choice(('runlist', 'expanded', 'single')), owns, codes,
+                                 save=rng.random() < 0.9))
+        if not any(o['op'] == 'run' for o in ops):
+            ops.append(h_run('cmd', 'runlist', [None, None], [0, 0]))
+        last = [o for o in ops if o['op'] == 'run'][-1]
+        c = {'kind': 'hist', 'step': last['step'], 'shape': 'hist/random', 'order': 'random', 'ops': ops}
+        if rng.random() < 0.25:
+            c['env_cmd'] = rng.choice(HIST_ENCS)
+        if rng.random() < 0.1:
+            c['env_file'] = rng.choice(['latin-1', 'utf-8', 'cp1252'])
+        cases.append(hist_fill(rng, c))
+    return cases
+
+
+def hist_request(case):
+    ops = []
+    for op in case['ops']:
+        if op['op'] == 'imp':
+            ops.append({'op': 'imp', 'mod': op['mod']})
+        elif op['op'] in ('setCmd', 'setFile'):
+            ops.append({'op': op['op'], 'v': op['v']})
+        else:
+            ops.append({'op': 'run', 'own': [c['own'] for c in op['cmds']]})
+    return ('cmd.enchist', {'init': {'cmd': case.get('env_cmd'), 'file': case.get('env_file')}, 'ops': ops})
+
+
+def hist_decode(text, penc, enc, default):
+    s = text.encode(penc).decode(enc or default)
+    return s.replace('\r\n', '\n').replace('\r', '\n').rstrip()
+
+
+def hist_expected(case, encs, default):
+    """From the property text, given for every command of every run the encoding its output is text in (`encs`):
+    commands run in declaration order up to and including the first non-zero exit, which raises an error with that
+    command and code; with save one result per command run - code, stdout, stderr as text; a command that exited 0
+    never fails the step."""
+    runs = []
+    r = 0
+    for op in case['ops']:
+        if op['op'] != 'run':
+            continue
+        started, results, err = [], [], None
+        for i, (c, e) in enumerate(zip(op['cmds'], encs[r])):
+            started.append(i)
+            if op['save']:
+                results.append([c['code'], hist_decode(c['out'], c['penc'], e, default),
+                                hist_decode(c['err'], c['penc'], e, default)])
+            if c['code'] != 0:
+                err = {'type': 'CalledProcessError', 'code': c['code'], 'cmd': i}
+                break
+        runs.append({'started': started, 'err': err, 'results': results if op['save'] else 'untouched'})
+        r += 1
+    return runs
+
+
+def hist_impl_runs(o):
+    out = []
+    for r in o.get('runs', []):
+        e = r['err']
+        # cmds / shells leave an EMPTY captured stream as b'' (pypyr.aio.subproc decodes only non-empty data): no text was
+        # written, so it reads as the empty text
+        results = [[('' if x == {'bytes': ''} else x) for x in row] if isinstance(row, list) else row
+                   for row in (r['results'] or [])] if isinstance(r['results'], list) else r['results']
+        out.append({'started': r['started'], 'results': results,
+                    'err': None if e is None else ({'type': e['type'], 'code': e['code'], 'cmd': e['cmd']}
+                                                   if e['type'] == 'CalledProcessError' else {'type': e['type'], 'msg': e['msg']})})
+    return out
+
+
+def judge_hist(res, c, m, o):
+    res.case(c, nontrivial=True)
+    res.count(f"hist:{c['step']}")
+    res.count('hist-order:' + c['order'])
+    for op in c['ops']:
+        if op['op'] in ('setCmd', 'setFile'):
+            res.count(f"hist-{op['op']}:{op['how']}:{op['v']}")
+        elif op['op'] == 'imp':
+            res.count('hist-import:' + op['mod'])
+        else:
+            for cm in op['cmds']:
+                res.count('hist-written-in:' + cm['penc'])
+                res.count('hist-own-encoding:' + ('none' if cm['own'] is None else (cm['own'] or 'empty')))
+    is_async = c['step'] in ('cmds', 'shells')
+    sig = lambda clause, failure: {'step': c['step'], 'clause': clause,
+                                   'failure': ('aio-default-encoding-read-at-import'
+                                               if is_async and failure == 'encoding-in-force-not-used' else failure)}
+    if 'hang' in o:
+        res.violation(c, f"hist:step-never-returned: no observation after {o['hang']['after_s']}s",
+                      signature=sig('hist:step-never-returned', 'hang'), impl=o)
+        return
+    if 'crash' in o:
+        res.violation(c, 'hist:history-crashed: ' + o['crash'], signature=sig('hist:history-crashed', 'crash'), impl=o)
+        return
+    default = o['default']
+    # the set-up itself (which value the configuration object holds after each assignment / init()): C20's matter;
+    # a history whose configuration is not what the case says cannot be judged
+    cur = [c.get('env_cmd'), c.get('env_file')]
+    want_setup = []
+    for op in c['ops']:
+        if op['op'] == 'setCmd':
+            cur[0] = op['v']
+        elif op['op'] == 'setFile':
+            cur[1] = op['v']
+        else:
+            continue
+        want_setup.append(list(cur))
+    if o['setup'] != want_setup:
+        res.mismatch({**c, 'layer': 'configuration after each set'}, want_setup, o['setup'])
+        return
+    forces = hist_fold(c)
+    if [r['config_at_run'] for r in o['runs']] != forces:
+        res.mismatch({**c, 'layer': 'config.default_cmd_encoding when the step starts'}, forces,
+                     [r['config_at_run'] for r in o['runs']])
+        return
+    runs = [op for op in c['ops'] if op['op'] == 'run']
+    mine = [[(cm['own'] if cm['own'] else f) for cm in op['cmds']] for op, f in zip(runs, forces)]
+    if m['runs'] != mine:
+        res.mismatch({**c, 'layer': 'encoding in force: model vs the monitor reading of the history'}, m['runs'], mine)
+        return
+    got = hist_impl_runs(o)
+    want = hist_expected(c, mine, default)
+    for ri, (g, w, op) in enumerate(zip(got, want, runs)):
+        where = f"run {ri + 1} ({op['step']}, default_cmd_encoding={forces[ri]!r} when it ran)"
+        if g == w:
+            continue
+        ge = g['err']
+        if ge is not None and ge['type'] != 'CalledProcessError' and (w['err'] is None or len(g['started']) <= w['err']['cmd']):
+            i = (g['started'] or [0])[-1]
+            cm = op['cmds'][i]
+            res.violation(c, f"hist:exit-0-command-fails-step: {where}: command {i + 1} exited {cm['code']} and wrote text "
+                          f"in {cm['penc']} that IS text under the encoding in force ({mine[ri][i]!r}; own encoding "
+                          f"{cm['own']!r}), yet the step raised {ge['type']}: {ge['msg']}; started {g['started']}, "
+                          f"expected {w['started']}; cmdOut {g['results']!r}",
+                          signature=sig('hist:exit-0-command-fails-step', 'encoding-in-force-not-used'), impl=o)
+        elif g['started'] != w['started'] or g['err'] != w['err']:
+            res.violation(c, f"hist:stops-at-first-non-zero: {where}: started {g['started']} error {g['err']}, expected "
+                          f"started {w['started']} error {w['err']}",
+                          signature=sig('hist:stops-at-first-non-zero', 'encoding-in-force-not-used'), impl=o)
+        else:
+            res.violation(c, f"hist:saved-output-is-the-text-written: {where}: cmdOut {g['results']!r}, expected "
+                          f"{w['results']!r} (each stream read with the encoding in force {mine[ri]!r})",
+                          signature=sig('hist:saved-output-is-the-text-written', 'encoding-in-force-not-used'), impl=o)
+        return
+    if len(got) != len(want):
+        res.mismatch({**c, 'layer': 'number of runs observed'}, len(want), len(got))
+        return
+    # model vs implementation: the same expectation computed from the MODEL's encodings
+    mv = hist_expected(c, m['runs'], default)
+    if mv != got:
+        res.mismatch(c, mv, got)
+
+
+
 OPEN_TYPE = {'isDir': 'IsADirectoryError', 'parentFile': 'FileExistsError'}
 
 
 def model_requests(case):
+    if case['kind'] == 'hist':
+        return hist_request(case)
     cfg = case['cfg']
     is_async = case['kind'] == 'async'
     payload = {'cfg': common.enc(impl.cfg_value(cfg)), 'shell': case['step'] in ('shell', 'shells'),
@@ -1180,6 +1521,9 @@ def execute(env, res, cases):
 
 
 def judge(res, c, m, o):
+    if c['kind'] == 'hist':
+        judge_hist(res, c, m, o)
+        return 0
     mv = model_view(c, m)
     iv = impl_view(c, o)
     failing = bool(mv.get('err') or mv.get('errors'))
@@ -1457,7 +1801,11 @@ def run(env, res):
                 '[fail, ok, same fail], workers that wait for their identical siblings - x exit codes x shapes x '
                 'schedules, all four steps; the random stream declares something a second time with probability '
                 '~1/3. Every process claims the next free occurrence slot of its instruction: starts, exits, '
-                'failures and results are counted per occurrence.')
+                'failures and results are counted per occurrence. directed H: histories in ONE FRESH interpreter - '
+                '[import a module of the command steps | set default_cmd_encoding / default_encoding by assignment or '
+                'config.init() with pypyr-config.yaml / pyproject.toml / $PYPYR_CONFIG_GLOBAL | run a saving cmd / shell '
+                'step] in 12 orders x 6 encodings x 4 ways of setting x own encoding none / other / empty, commands writing '
+                'non-ASCII text in the encoding in force when the step runs; plus random histories.')
     check_parse(env, res, env.n(1500, 20000))
     ser, asy = serial_cases(env), async_cases(env)
     fser, fasy = serial_fault_cases(env), async_fault_cases(env)
@@ -1465,6 +1813,8 @@ def run(env, res):
     dec = decode_cases(env)
     red = redirect_cases(env)
     dup = duplicate_cases(env)
+    hist = hist_cases(env) + (async_hist_cases(env) if HIST_ASYNC else [])
+    res.extra['directed_histories'] = len(hist)
     res.extra['directed_set'] = {'serial': len(ser), 'async': len(asy), 'serial_faults': len(fser),
                                  'async_faults': len(fasy), 'big_outputs': len(big), 'undecodable': len(dec),
                                  'redirects': len(red), 'identical_entries': len(dup)}
@@ -1482,9 +1832,11 @@ def run(env, res):
         dec = stratified(env.rng, dec, lambda c: (c['kind'], c['decode'], c['fault']), 4)
         red = stratified(env.rng, red, lambda c: (c['kind'], c['redirect']), 3)
         dup = stratified(env.rng, dup, lambda c: (c['kind'], c['dup']), 5)
+        hist = stratified(env.rng, hist, lambda c: (c['order'], c['how']), 2) + random_hist_cases(env, 40)
     else:
         rnd = random_cases(env, 1200)
-    cases = dup + dec + red + fser + fasy + big + ser + asy + rnd
+        hist = hist + random_hist_cases(env, 600)
+    cases = hist + dup + dec + red + fser + fasy + big + ser + asy + rnd
     k = 0
     for c in cases:
         if c['kind'] == 'serial' and 'prev' not in c:
